@@ -235,13 +235,37 @@ func run(c *core.Ctx) {
 	viaSession := r.Bool()
 	opID := fmt.Sprintf("op-%d", c.Case)
 	parent := context.WithValue(context.Background(), ctxKey{}, opID)
-	desc := fmt.Sprintf("prepareStmt=%v nest=%d via=%s :: %s", prep, nest, map[bool]string{true: "Session{Context}", false: "WithContext"}[viaSession], o.desc)
+	sibling := r.Intn(6) // what else is derived from the context-bound handle before the operation uses it
+	desc := fmt.Sprintf("prepareStmt=%v nest=%d via=%s sibling=%d :: %s", prep, nest, map[bool]string{true: "Session{Context}", false: "WithContext"}[viaSession], sibling, o.desc)
 	c.Logf("OP %s", desc)
+	other := context.WithValue(context.Background(), ctxKey{}, "sibling-of-"+opID)
 	mk := func(ctx context.Context) *gorm.DB {
+		var base *gorm.DB
 		if viaSession {
-			return h.DB.Session(&gorm.Session{Context: ctx})
+			base = h.DB.Session(&gorm.Session{Context: ctx})
+		} else {
+			base = h.DB.WithContext(ctx)
 		}
-		return h.DB.WithContext(ctx)
+		// a handle bound to a context is reusable: sessions derived from it for other work carry their
+		// own context and leave the handle's alone
+		var sib *gorm.DB
+		switch sibling {
+		case 1:
+			sib = base.Session(&gorm.Session{NewDB: true, Context: other})
+		case 2:
+			sib = base.Session(&gorm.Session{Context: other})
+		case 3:
+			sib = base.WithContext(other)
+		case 4:
+			sib = base.Session(&gorm.Session{NewDB: true, Context: other, PrepareStmt: true})
+		case 5:
+			sib = base.Debug().WithContext(other)
+		}
+		if sib != nil {
+			var one int
+			sib.Raw("SELECT 1").Scan(&one)
+		}
+		return base
 	}
 	exec := func(db *gorm.DB) error {
 		var f func(db *gorm.DB, n int) error
@@ -254,9 +278,10 @@ func run(c *core.Ctx) {
 		return f(db, nest)
 	}
 	// (1) live context
+	bound := mk(parent)
 	txm.ResetHooks()
 	mark := h.Rec.Mark()
-	err := exec(mk(parent))
+	err := exec(bound)
 	evs := ctxEvents(h.Rec.Since(mark))
 	hooks := txm.H.Log
 	var problems []string
@@ -299,9 +324,10 @@ func run(c *core.Ctx) {
 	}
 	cctx, cancel := context.WithCancel(parent)
 	cancel()
+	bound = mk(cctx)
 	txm.ResetHooks()
 	mark = h.Rec.Mark()
-	err = exec(mk(cctx))
+	err = exec(bound)
 	var ran []string
 	for _, e := range h.Rec.Since(mark) {
 		if e.IsStatement() || e.Kind == recdrv.KBegin {
@@ -331,7 +357,7 @@ func short(s string) string {
 var Engine = &core.Engine{
 	ID:    "C18",
 	Level: "exploration",
-	Rule: "operations = the 16 write kinds of C05 over seeded association graphs (hooks write through tx) + 27 read / association-mode / raw / savepoint / failing-nested-block kinds (nested and conditional Preload, clause.Associations, Joins, FindInBatches with a statement in the callback, Rows+ScanRows, Scan, Pluck, Count, First/Last, FirstOrCreate/Init, Association Append/Replace/Delete/Clear/Count/Find on has-many and many-to-many, Raw, Exec, SavePoint/RollbackTo/nested Transaction) x {PrepareStmt off, on} x nesting in 0..2 Transaction blocks x {WithContext, Session{Context}}; " +
+	Rule: "operations = the 16 write kinds of C05 over seeded association graphs (hooks write through tx) + 27 read / association-mode / raw / savepoint / failing-nested-block kinds (nested and conditional Preload, clause.Associations, Joins, FindInBatches with a statement in the callback, Rows+ScanRows, Scan, Pluck, Count, First/Last, FirstOrCreate/Init, Association Append/Replace/Delete/Clear/Count/Find on has-many and many-to-many, Raw, Exec, SavePoint/RollbackTo/nested Transaction) x {PrepareStmt off, on} x nesting in 0..2 Transaction blocks x {WithContext, Session{Context}} x {nothing, one of five sibling sessions with another context derived (and used) from the bound handle first}; " +
 		"each run twice: live context (every begin/prepare/exec/query/prepared-exec event and every hook must show the operation id) and cancelled context (no driver statement, error returned); distinct = (operation, PrepareStmt, nesting, entry, event kinds, size class); non-trivial = at least 2 context-carrying driver events",
 	Assumptions: []string{
 		"COMMIT/ROLLBACK carry no context in database/sql's driver interface and are not checked",
